@@ -327,7 +327,10 @@ def _short(v):
 
 def analyse_root(prog, fi, rep, stats):
     I, fr, sites = enumerate_sites(prog, fi)
-    an = Analyzer(I, fi, index_params=("self", "other"), assumed_params=ASSUMED.get(fi.qualname, ()))
+    assumed = ASSUMED.get(fi.qualname, ())
+    # a parameter documented as a PARTIAL mapping of entries (update / union_update / ...) is not a well-formed index:
+    # its arrays are increasing uint32 by precondition, but may be empty (set_if exists to drop those)
+    an = Analyzer(I, fi, index_params=tuple(p for p in ("self", "other") if p not in assumed), assumed_params=assumed)
     for s in sites:
         v = s.value
         where = s.where()
@@ -407,6 +410,9 @@ def value_rules(rep, an, fi, s, v, guards, where):
     elif _maybe_empty(f.prov):
         rep.violated("R-C07-b", where, cons, "the stored array can be empty and no guard drops it: a phantom entry for a value that occurs nowhere",
                      witness={"inputs": "e.g. append an index whose common value has no rows / filter away every row of an entry"})
+    elif "assumed" in prov_leaves(f.prov) and fi.qualname in ("iindex.update", "iindex.union_update") and not f.maybe_none:
+        rep.violated("R-C07-b", where, cons, "rows supplied by the caller are stored without the non-emptiness test that set_if applies: an empty row list for a key that is absent leaves a zero-length entry (a category reported although it occurs nowhere)",
+                     witness={"inputs": "idx.update({(c,): rows[new == c] for c in categories}) where some category gets no row in the batch; idx.union_update({(5,): numpy.array([], dtype='uint32')})"})
     elif "assumed" in prov_leaves(f.prov) or f.maybe_none:
         rep.undecided("R-C07-b", where, cons, "emptiness of a caller-supplied value is not excluded")
     else:
